@@ -62,6 +62,11 @@ def PAIR(*ts):
     return ('pair',) + ts
 
 
+DYN, VDICT, EMPTYSEQ = ('dyn',), ('vdict',), ('emptyseq',)
+TUPF = ('tuple', FLOAT)            # a tuple of floats (a point)
+MAT = ('list', ('list', FLOAT))    # a 2-d float array, row by row
+
+
 TARGETS = {
     'driver': dict(
         file='sparseSpACE/spatiallyAdaptiveBase.py', cls='SpatiallyAdaptivBase', out='DriverGen.v', prop='C13',
@@ -106,6 +111,27 @@ TARGETS = {
     ),
 }
 
+TARGETS['funcache'] = dict(
+    file='sparseSpACE/Function.py', cls='Function', out='FunCacheGen.v', prop='C12',
+    # __call__ is translated three times, SPECIALISED ON THE SHAPE OF ITS ARGUMENT (a typing precondition): the tests
+    # np.isscalar(coordinates[0]) / isinstance(coordinates[0], tuple) / len(coordinates) == 0 are decided by the declared type of
+    # `coordinates` and only the branch taken is translated (see `specialisation` in the scheme)
+    methods=[
+        'reset_dictionary', 'deactivate_caching', 'get_f_dict_size',
+        dict(name='__call__', suffix='single', param_types={'coordinates': TUPF}, dyn_locals=['f_value'], ret=DYN),
+        dict(name='__call__', suffix='batch', param_types={'coordinates': ('list', TUPF)}, dyn_locals=['f_value'], ret=DYN),
+        dict(name='__call__', suffix='empty', param_types={'coordinates': EMPTYSEQ}, dyn_locals=['f_value'], ret=DYN),
+    ],
+    attrs={'f_dict': VDICT, 'old_f_dict': VDICT, 'do_cache': BOOL},
+    abstract_attrs={},
+    oracles={
+        'eval': dict(sig=('sparseSpACE/Function.py', 'Function'), params={'coordinates': TUPF}, ret=DYN),
+        'eval_vectorized': dict(sig=('sparseSpACE/Function.py', 'Function'), params={'coordinates': MAT}, ret=MAT),
+        'output_length': dict(sig=('sparseSpACE/Function.py', 'Function'), params={}, ret=INT),
+    },
+    path_oracles={}, param_types={}, dropped_statements=[], dropped_defs=[], unsupported_if={},
+)
+
 
 class Reject(Exception):
     def __init__(self, node, what):
@@ -126,8 +152,14 @@ def gt(t):
         return 'unit'
     if k == 'opt':
         return '(option %s)' % gt(t[1])
-    if k == 'list':
+    if k in ('list', 'tuple'):
         return '(list %s)' % gt(t[1])
+    if k == 'dyn':
+        return 'pyval'
+    if k == 'vdict':
+        return 'vdict'
+    if k == 'emptyseq':
+        return 'unit'
     if k == 'opq':
         return 'T_' + t[1]
     if k == 'pair':
@@ -237,11 +269,15 @@ class Machine:
         self.curfile = cfg['file']
         self.methods = {}
         out = []
-        for m in cfg['methods']:
+        for spec in cfg['methods']:
+            if isinstance(spec, str):
+                spec = dict(name=spec)
+            m = spec['name']
+            key = m + ('_' + spec['suffix'] if spec.get('suffix') else '')
             fn = self.find_method(cls, m)
-            sig = self.signature(fn, cfg['param_types'])
-            self.methods[m] = dict(sig=sig, node=fn, ret=None)
-            out.append(MethodTranslator(self, m).run())
+            sig = self.signature(fn, dict(cfg['param_types'], **spec.get('param_types', {})))
+            self.methods[key] = dict(sig=sig, node=fn, ret=None, spec=spec)
+            out.append(MethodTranslator(self, key).run())
         return out
 
 
@@ -250,6 +286,8 @@ class MethodTranslator:
         self.m, self.name = mach, name
         self.cfg = mach.cfg
         self.info = mach.methods[name]
+        self.spec = self.info.get('spec', {})
+        self.dyn_locals = self.spec.get('dyn_locals', [])
         self.rets = []
 
     def rej(self, node, what):
@@ -268,8 +306,8 @@ class MethodTranslator:
         body = list(fn.body)
         if body and isinstance(body[0], ast.Expr) and isinstance(body[0].value, ast.Constant) and isinstance(body[0].value.value, str):
             body = body[1:]
-        if not (body and isinstance(body[-1], ast.Return)):
-            body.append(ast.Return(value=None, lineno=fn.end_lineno, col_offset=0))
+        if self.falls(body):
+            body.append(ast.Return(value=None, lineno=fn.end_lineno, end_lineno=fn.end_lineno, col_offset=0))
         lines, _, _ = self.block(body, env, [], 2, False)
         rt = None
         for t in self.rets:
@@ -280,6 +318,8 @@ class MethodTranslator:
         cname = self.cfg['cls']
         params = ''.join(' (%s : %s)' % (n, gt(t)) for n, t, d in self.info['sig'])
         head = '(* %s:%d-%d  %s.%s *)\n' % (self.cfg['file'], fn.lineno, fn.end_lineno, cname, self.name)
+        if self.spec.get('suffix'):
+            head += '(* SPECIALISATION of %s.%s for arguments of the shape: %s *)\n' % (cname, self.spec['name'], ', '.join('%s : %s' % (k, v) for k, v in self.spec.get('param_types', {}).items()))
         text = head + 'Definition %s_%s (fuel : nat) (self : Self_t)%s : option (%s * Self_t) :=\n  run_flow (V:=unit) (\n' % (
             cname, self.name, params, gt(rt)) + '\n'.join(lines) + ').\n'
         # keyword-call wrapper: None = argument not passed
@@ -349,6 +389,8 @@ class MethodTranslator:
                                 add(e.id)
                             elif isinstance(e, ast.Attribute) and isinstance(e.value, ast.Name) and e.value.id == 'self':
                                 add('self')
+                            elif isinstance(e, ast.Subscript) and ast.unparse(e.value).startswith('self.'):
+                                add('self')
                             else:
                                 self.rej(e, 'assignment target %s' % ast.unparse(e))
                 in_expr(st)
@@ -406,9 +448,12 @@ class MethodTranslator:
                 L += self.binds(sum((p[0] for p in parts), []), ind, loop)
                 term = '(' + ', '.join(p[1] for p in parts) + ')' if len(parts) > 1 else parts[0][1]
                 t = PAIR(*[p[2] for p in parts]) if len(parts) > 1 else parts[0][2]
+            if self.spec.get('ret') and t != self.spec['ret']:
+                term, t = self.coerce(term, t, self.spec['ret'], st), self.spec['ret']
             self.rets.append(t)
             return L + [sp + '%s (%s, self)' % (RET, term)], False, env
         if isinstance(st, ast.Assert):
+            self.need(st.msg is None or (isinstance(st.msg, ast.Constant) and isinstance(st.msg.value, str)), st, 'assert with a computed message')
             b, term, t = self.expr(st.test, env)
             self.need(t == BOOL, st, 'assert on a non-boolean value')
             L += self.binds(b, ind, loop)
@@ -436,6 +481,16 @@ class MethodTranslator:
             b, term, t = self.expr(st.test, env)
             self.need(t == BOOL, st, 'if on a non-boolean value (truthiness of %s is not translated)' % (t,))
             L += self.binds(b, ind, loop)
+            if term in ('true', 'false'):
+                # SPECIALISATION: the test is decided by the declared argument shape; only the branch taken is translated
+                live, dead = (st.body, st.orelse) if term == 'true' else (st.orelse, st.body)
+                L.append(sp + '(* specialisation: `%s` is %s for this argument shape; %s *)' % (
+                    ast.unparse(st.test).replace('*)', '* )'), term.capitalize(),
+                    'lines %d-%d not translated' % (dead[0].lineno, dead[-1].end_lineno) if dead else 'no other branch'))
+                if not self.falls(live) and rest:
+                    L.append(sp + '(* not reached for this argument shape: lines %d-%d *)' % (rest[0].lineno, rest[-1].end_lineno))
+                lines, ft, e2 = self.block(live + rest if self.falls(live) else live, env, out, ind, loop)
+                return L + lines, ft, e2
             vs = out if loop else [n for n in env if n in self.assigned(st.body + st.orelse)]
             # variables first assigned in BOTH branches exist afterwards
             new = [] if loop else [n for n in self.assigned(st.body) if n in self.assigned(st.orelse) and n not in env and n != 'self']
@@ -460,6 +515,17 @@ class MethodTranslator:
             return cont()
         self.rej(st, 'statement %s' % type(st).__name__)
 
+    def falls(self, stmts):
+        """can the statement list fall through (syntactically)?"""
+        if not stmts:
+            return True
+        last = stmts[-1]
+        if isinstance(last, (ast.Return, ast.Break, ast.Raise)):
+            return False
+        if isinstance(last, ast.If):
+            return self.falls(last.body) or self.falls(last.orelse)
+        return True
+
     def set_attr(self, a, term):
         return 'let self := set_f_%s self (Some %s) in' % (a, term)
 
@@ -472,8 +538,19 @@ class MethodTranslator:
             return '(Some %s)' % term
         if want == FLOAT and t == INT:
             return '(py_Z2Qc %s)' % term
-        if want[0] == 'list' and t == ('list', None):
+        if want[0] in ('list', 'tuple') and t == ('list', None):
             return term
+        if want[0] in ('list', 'tuple') and t[0] in ('list', 'tuple') and gt(t) == gt(want):
+            return term
+        if want == DYN:
+            if t == NONE:
+                return 'VNone'
+            if t == FLOAT:
+                return '(VScalar %s)' % term
+            if t[0] in ('list', 'tuple') and t[1] == FLOAT:
+                return '(VVec %s)' % term
+            if t == MAT or (t[0] == 'list' and t[1] == TUPF):
+                return '(VMat %s)' % term
         self.rej(node, 'a value of type %s where %s is expected' % (t, want))
 
     def assign(self, target, value, st, env, L, ind, loop):
@@ -491,6 +568,20 @@ class MethodTranslator:
             return
         b, term, t = self.expr(value, env)
         L += self.binds(b, ind, loop)
+        if isinstance(target, ast.Name) and target.id in self.dyn_locals:
+            env[target.id] = DYN
+            L.append(sp + 'let %s := %s in' % (target.id, self.coerce(term, t, DYN, st)))
+            return
+        if isinstance(target, ast.Subscript) and isinstance(target.value, ast.Attribute) and \
+                isinstance(target.value.value, ast.Name) and target.value.value.id == 'self' and \
+                self.cfg['attrs'].get(target.value.attr) == VDICT:
+            a = target.value.attr
+            bk, tk, tyk = self.expr(target.slice, env)
+            bd, td, tyd = self.expr(target.value, env)
+            self.need(tyk[0] in ('tuple',) and tyk[1] == FLOAT, st, 'dict key of type %s (only tuples of floats)' % (tyk,))
+            L += self.binds(bd + bk, ind, loop)
+            L.append(sp + self.set_attr(a, '(py_vdict_set %s %s %s)' % (td, tk, self.coerce(term, t, DYN, st))))
+            return
         if isinstance(target, ast.Name):
             self.need(target.id not in ('self', 'fuel'), st, 'assignment to %s' % target.id)
             if target.id in env and env[target.id] != t:
@@ -529,6 +620,20 @@ class MethodTranslator:
             ba, ta, tya = self.expr(c.func.value, env)
             L += self.binds(ba + bv, ind, loop)      # the receiver is evaluated first
             L.append(sp + self.set_attr(a, '(%s ++ [%s])' % (ta, self.coerce(tv, tyv, tya[1], st))))
+            return cont()
+        if isinstance(c.func, ast.Attribute) and c.func.attr == 'update' and isinstance(c.func.value, ast.Attribute) and \
+                isinstance(c.func.value.value, ast.Name) and c.func.value.value.id == 'self' and \
+                self.cfg['attrs'].get(c.func.value.attr) == VDICT:
+            a = c.func.value.attr
+            z = c.args[0] if len(c.args) == 1 and not c.keywords else None
+            self.need(isinstance(z, ast.Call) and isinstance(z.func, ast.Name) and z.func.id == 'zip' and len(z.args) == 2
+                      and not z.keywords, st, 'dict.update with anything but zip(keys, rows)')
+            bd, td, tyd = self.expr(c.func.value, env)
+            bk, tk, tyk = self.expr(z.args[0], env)
+            br, tr_, tyr = self.expr(z.args[1], env)
+            self.need(tyk == ('list', TUPF) and tyr == MAT, st, 'update(zip(%s, %s))' % (tyk, tyr))
+            L += self.binds(bd + bk + br, ind, loop)
+            L.append(sp + self.set_attr(a, '(py_vdict_update_zip %s %s %s)' % (td, tk, tr_)))
             return cont()
         b, term, t = self.expr(c, env)
         self.need(b, st, 'call statement without effect: %s' % ast.unparse(c))
@@ -579,8 +684,23 @@ class MethodTranslator:
             self.need(e.id in env and not e.id.startswith('__'), e, 'variable %s is not defined here (or is a global)' % e.id)
             return [], e.id, env[e.id]
         if isinstance(e, ast.List):
+            if len(e.elts) == 1:
+                b, term, t = self.expr(e.elts[0], env)
+                if t == DYN:
+                    tmp = self.m.temp()
+                    return b + [(tmp, 'py_list1 %s' % term)], tmp, DYN
             self.need(not e.elts, e, 'non-empty list literal')
             return [], '[]', ('list', None)
+        if isinstance(e, ast.Dict):
+            self.need(not e.keys, e, 'non-empty dict literal')
+            return [], '[]', VDICT
+        if isinstance(e, ast.Subscript):
+            self.need(not isinstance(e.slice, ast.Slice), e, 'slice')
+            bv, tv, tyv = self.expr(e.value, env)
+            bi, ti, tyi = self.expr(e.slice, env)
+            self.need(tyv[0] in ('list', 'tuple') and tyv[1] is not None and tyi == INT, e, 'subscript on %s with %s' % (tyv, tyi))
+            tmp = self.m.temp()
+            return bv + bi + [(tmp, 'py_getitem %s %s' % (tv, ti))], tmp, tyv[1]
         if isinstance(e, ast.Attribute):
             path = ast.unparse(e)
             self.need(path.startswith('self.'), e, 'attribute %s' % path)
@@ -594,6 +714,8 @@ class MethodTranslator:
         if isinstance(e, ast.UnaryOp) and isinstance(e.op, ast.Not):
             b, term, t = self.expr(e.operand, env)
             self.need(t == BOOL, e, '`not` on a non-boolean value')
+            if term in ('true', 'false'):
+                return b, 'false' if term == 'true' else 'true', BOOL
             return b, '(negb %s)' % term, BOOL
         if isinstance(e, ast.Compare):
             nt = self.is_none_test(e)
@@ -601,6 +723,8 @@ class MethodTranslator:
                 b, term, t = self.expr(nt[0], env)
                 if t == NONE:
                     return b, 'false' if nt[1] else 'true', BOOL
+                if t == DYN:
+                    return b, ('(negb (py_is_none %s))' if nt[1] else '(py_is_none %s)') % term, BOOL
                 if t[0] != 'opt':
                     return b, 'true' if nt[1] else 'false', BOOL      # a value that cannot be None
                 return b, '(match %s with Some _ => %s | None => %s end)' % (term, 'true' if nt[1] else 'false',
@@ -612,6 +736,8 @@ class MethodTranslator:
             if tyl == INT and tyr == INT:
                 sym = {ast.Lt: '<?', ast.LtE: '<=?', ast.Gt: '>?', ast.GtE: '>=?', ast.Eq: '=?'}
                 self.need(op in sym, e, 'comparison operator %s' % op.__name__)
+                if op is ast.Eq and tl == tr_ and tl.startswith('(') and tl.endswith(')%Z') and tl[1:-3].lstrip('-').isdigit():
+                    return bl + br, 'true', BOOL      # the same literal on both sides (after specialisation)
                 return bl + br, '(%s %s %s)%%Z' % (tl, sym[op], tr_), BOOL
             if {tyl, tyr} <= {INT, FLOAT}:
                 tl, tr_ = self.coerce(tl, tyl, FLOAT, e), self.coerce(tr_, tyr, FLOAT, e)
@@ -731,6 +857,62 @@ class MethodTranslator:
             inner = ast.Call(func=c.args[1], args=c.args[2:], keywords=[])
             ast.copy_location(inner, c)
             return self.call(inner, env)
+        if f == 'len' and len(c.args) == 1 and not c.keywords:
+            b, term, t = self.expr(c.args[0], env)
+            if t == EMPTYSEQ:
+                return b, '(0)%Z', INT
+            if t == DYN:
+                tmp = self.m.temp()
+                return b + [(tmp, 'py_val_len %s' % term)], tmp, INT
+            self.need(t[0] in ('list', 'tuple') or t == VDICT, c, 'len of %s' % (t,))
+            return b, '(py_len %s)' % term, INT
+        if f == 'np.isscalar' and len(c.args) == 1 and not c.keywords:
+            b, term, t = self.expr(c.args[0], env)
+            if t in (FLOAT, INT):
+                return b, 'true', BOOL
+            if t[0] in ('list', 'tuple'):
+                return b, 'false', BOOL
+            self.need(t == DYN, c, 'np.isscalar of %s' % (t,))
+            return b, '(py_isscalar %s)' % term, BOOL
+        if f == 'isinstance' and len(c.args) == 2 and not c.keywords and isinstance(c.args[1], ast.Name) and c.args[1].id == 'tuple':
+            b, term, t = self.expr(c.args[0], env)
+            self.need(t[0] in ('list', 'tuple'), c, 'isinstance(.., tuple) of a value of type %s' % (t,))
+            return b, 'true' if t[0] == 'tuple' else 'false', BOOL
+        if f == 'tuple' and len(c.args) == 1 and not c.keywords:
+            b, term, t = self.expr(c.args[0], env)
+            self.need(t[0] in ('list', 'tuple') and t[1] is not None, c, 'tuple() of %s' % (t,))
+            return b, term, ('tuple', t[1])
+        if f == 'np.empty' and len(c.args) == 1 and not c.keywords and isinstance(c.args[0], ast.Tuple) and len(c.args[0].elts) == 2 \
+                and isinstance(c.args[0].elts[0], ast.Constant) and c.args[0].elts[0].value == 0:
+            b, term, t = self.expr(c.args[0].elts[1], env)
+            self.need(t == INT, c, 'np.empty((0, %s))' % (t,))
+            return b, '[]', MAT          # no rows
+        if f in ('np.array', 'np.asarray') and len(c.args) == 1 and not c.keywords:
+            b, term, t = self.expr(c.args[0], env)
+            if t == DYN:
+                tmp = self.m.temp()
+                return b + [(tmp, 'np_array_val %s' % term)], tmp, DYN
+            if t == MAT or t == ('list', TUPF):
+                return b, term, MAT
+            self.need(t[0] in ('list', 'tuple') and t[1] == FLOAT, c, '%s of %s' % (f, t))
+            return b, term, ('list', FLOAT)
+        if isinstance(c.func, ast.Attribute) and c.func.attr in ('get', 'reshape', 'copy') and not f.startswith('self.' + c.func.attr):
+            b, term, t = self.expr(c.func.value, env)
+            if c.func.attr == 'get' and t == VDICT:
+                self.need(len(c.args) == 2 and not c.keywords and isinstance(c.args[1], ast.Constant) and c.args[1].value is None, c,
+                          'dict.get with anything but (key, None)')
+                bk, tk, tyk = self.expr(c.args[0], env)
+                self.need(tyk == TUPF, c, 'dict key of type %s (only tuples of floats)' % (tyk,))
+                return b + bk, '(py_vdict_get %s %s)' % (term, tk), DYN
+            if c.func.attr == 'copy' and t == MAT and not c.args and not c.keywords:
+                return b, term, MAT
+            if c.func.attr == 'reshape' and t == MAT and len(c.args) == 1 and not c.keywords and isinstance(c.args[0], ast.Tuple) \
+                    and len(c.args[0].elts) == 2:
+                p1, p2 = [self.expr(x, env) for x in c.args[0].elts]
+                self.need(p1[2] == INT and p2[2] == INT, c, 'reshape to a non-integer shape')
+                tmp = self.m.temp()
+                return b + p1[0] + p2[0] + [(tmp, 'py_reshape2 %s %s %s' % (term, p1[1], p2[1]))], tmp, MAT
+            self.rej(c, 'method %s on a value of type %s' % (c.func.attr, t))
         if f == 'list' and len(c.args) == 1 and not c.keywords:
             b, term, t = self.expr(c.args[0], env)
             self.need(t[0] == 'list', c, 'list() of %s' % (t,))
@@ -770,12 +952,13 @@ def render(mach, fns):
            '\n   every ./setup.sh %s and ./check %s run.  Scheme: header of the translator; semantics: Base/PyLib.v, PyNum.v, PyMachine.v.'
            '\n   source: %s, class %s *)' % ([k for k, v in TARGETS.items() if v is cfg][0], cfg['prop'], cfg['prop'], cfg['file'], cname),
            'From Coq Require Import ZArith List Bool QArith Qcanon.',
-           'From SG Require Import Base.QcUtil Base.PyLib Base.PyNum Base.PyMachine.',
+           'From SG Require Import Base.QcUtil Base.PyLib Base.PyNum Base.PyMachine%s.' % (' Base.PyValue' if cfg['prop'] == 'C12' else ''),
            'Import ListNotations.', 'Open Scope Z_scope.', 'Open Scope py_scope.', '',
            'Section %s.' % cname,
            '(* the abstract part of the object and the opaque value types *)',
            'Variable St : Type.']
-    out.append('Variables %s : Type.' % ' '.join('T_' + n for n in opq))
+    if opq:
+        out.append('Variables %s : Type.' % ' '.join('T_' + n for n in opq))
     out.append('(* abstract attributes: total projections *)')
     for a, t in cfg['abstract_attrs'].items():
         out.append('Variable g_%s : St -> %s.' % (a.replace('.', '_'), gt(t)))
